@@ -197,18 +197,38 @@ def regex_statics_in(f, body):
     return out
 
 
+_IDENT = re.compile(r"[A-Za-z_][A-Za-z0-9_]*")
+
+
 def coarse_desc(cls, desc):
-    """what a key keeps of a site's description: the operation (callee / assert kind) and which side failed, not the operand
-    expressions - renaming a local or hoisting a sub-expression does not make a reviewed or known site a new one; how many
-    such sites a function has is what is compared (key + count).  Explicit panics keep their message."""
+    """what a key keeps of a site's description: its shape - operations, callees, field names, constants, casts and which
+    side failed - with the names of locals blanked out.  Renaming a local or hoisting a sub-expression into a `let` (single
+    definitions are folded back by the expression builder) does not make a reviewed or known site a new one; a different
+    constant, field or callee at the same place does.  Explicit panics keep their message."""
     if cls == "S5":
         return desc
-    m = re.match(r"^([A-Za-z_][\w:]*)\(", desc)
-    op = m.group(1) if m else desc.split("(")[0]
+
+    def sub(m):
+        w = m.group(0)
+        i, j = m.start(), m.end()
+        if w == "self" or w[0].isupper() or (i > 0 and desc[i - 1] == ".") or desc[j:j + 1] == "(" or desc[max(0, i - 3):i] == "as " \
+                or desc[j:j + 1] == ":" or desc[max(0, i - 1):i] == ":":
+            return w
+        if w == "as":
+            return w
+        return "_"
+    body = desc
     part = re.search(r" (#[a-z+0-9!<>= ()&*._-]+)$", desc)
-    if cls == "S5":
-        return desc
-    return op + ((" " + part.group(1)) if part else "")
+    if part:
+        body = desc[:part.start()]
+    out = []
+    pos = 0
+    for m in _IDENT.finditer(body):
+        out.append(body[pos:m.start()])
+        out.append(sub(m))
+        pos = m.end()
+    out.append(body[pos:])
+    return "".join(out) + ((" " + part.group(1)) if part else "")
 
 
 def run_scope(chk, scope, roots, floor_roots, floor_bodies, floor_sinks, reviewed_file, trust_caret=True, extra_known_roots=(), invariants=None):
